@@ -27,7 +27,7 @@ def result_model(got):
     return M.wrap(arr)
 
 
-def mismatch(got, want, rtol=None):
+def mismatch(got, want, rtol=None, atol=0.0):
     """None when the real result denotes ``want``; else (failure_kind, text)."""
     try:
         have = result_model(got)
@@ -43,7 +43,7 @@ def mismatch(got, want, rtol=None):
     want = M.wrap(want)
     if tuple(have.shape) != tuple(want.shape):
         return ("shape", f"result shape {tuple(have.shape)} != expected {tuple(want.shape)}")
-    text = M.diff_arrays(have, want, rtol=rtol)
+    text = M.diff_arrays(have, want, rtol=rtol, atol=atol)
     if text is None:
         return None
     if is_poly(got):
